@@ -773,14 +773,12 @@ struct Coalesce;
 
 impl Callable for Coalesce {
     fn call(args: Vec<DataType>) -> EvaluationResult<DataType> {
-        if args.len() != 2 {
-            return Err(EvaluationError::InvalidArguments(ScalarFunction::Ceil));
+        if args.is_empty() {
+            return Err(EvaluationError::InvalidArguments(ScalarFunction::Coalesce));
         };
 
-        if args[0].is_null() {
-            return Ok(args[1].clone());
-        }
-        Ok(args[0].clone())
+        // the first argument that is not NULL; NULL if there is none
+        Ok(args.into_iter().find(|a| !a.is_null()).unwrap_or(DataType::Null))
     }
 }
 
